@@ -139,53 +139,54 @@ Proof.
 Qed.
 
 (* ---------------------------------------------------------------- fseek_u32 / skipStream *)
-Lemma skip_stream_ok : forall fl offset s e s2, skip_stream fl offset s = (e, s2) -> 0 <= offset ->
+Lemma skip_stream_ok : forall fl offset s e s2, skip_stream fl offset s = (e, s2) ->
   mono s s2 /\ keeps s s2 /\
-  (e = 0 -> s_rerr s2 = false ->
+  (0 <= offset -> e = 0 -> s_rerr s2 = false ->
      s_in s2 = skipn (Z.to_nat offset) (s_in s) /\ (Z.to_nat offset <= length (s_in s))%nat /\ (clean (s_tr s) -> clean (s_tr s2))).
 Proof.
-  intros fl offset s e s2 H Hn. unfold skip_stream in H.
+  intros fl offset s e s2 H. unfold skip_stream in H.
   destruct (offset <=? 0) eqn:E0.
-  - inversion H; subst. apply Z.leb_le in E0. assert (offset = 0) by lia. subst offset.
-    split; [apply mono_refl|]. split; [repeat split|]. intros _ _. cbn. repeat split; auto. lia.
+  - inversion H; subst. apply Z.leb_le in E0.
+    split; [apply mono_refl|]. split; [repeat split|]. intros Hn _ _. assert (offset = 0) by lia. subst offset.
+    cbn. repeat split; auto. lia.
   - destruct (fread fl offset s) as [got s1] eqn:R. destruct (fread_ok _ _ _ _ _ R) as [M [K F]].
     destruct (len got =? offset) eqn:EL; inversion H; subst; clear H.
-    + split; [exact M|]. split; [exact K|]. intros _ G. destruct (F G) as [Fa [Fb Fc]].
+    + split; [exact M|]. split; [exact K|]. intros Hn _ G. destruct (F G) as [Fa [Fb Fc]].
       split; [exact Fb|]. split; [|exact Fc]. apply Z.eqb_eq in EL. subst got. apply len_firstn_eq in EL; [exact EL|exact Hn].
-    + split; [exact M|]. split; [exact K|]. intros D; discriminate.
+    + split; [exact M|]. split; [exact K|]. intros _ D; discriminate.
 Qed.
 
-Lemma fseek_u32_ok : forall fuel seekable fl offset s e s2, fseek_u32 fuel seekable fl offset s = (e, s2) -> 0 <= offset ->
+Lemma fseek_u32_ok : forall fuel seekable fl offset s e s2, fseek_u32 fuel seekable fl offset s = (e, s2) ->
   mono s s2 /\ s_out s2 = s_out s /\ s_magic s2 = s_magic s /\ s_nbFrames s2 = s_nbFrames s /\
-  (e = 0 -> good s2 ->
+  (0 <= offset -> e = 0 -> good s2 ->
      s_in s2 = skipn (Z.to_nat offset) (s_in s) /\ (Z.to_nat offset <= length (s_in s))%nat /\ (clean (s_tr s) -> clean (s_tr s2))).
 Proof.
-  induction fuel; intros seekable fl offset s e s2 H Hn; cbn [fseek_u32] in H.
+  induction fuel; intros seekable fl offset s e s2 H; cbn [fseek_u32] in H.
   - inversion H; subst. split; [apply mono_refl|]. split; [reflexivity|]. split; [reflexivity|]. split; [reflexivity|].
-    intros D. unfold FUEL in D. discriminate.
+    intros _ D. unfold FUEL in D. discriminate.
   - destruct (offset <=? 0) eqn:E0.
-    + inversion H; subst. apply Z.leb_le in E0. assert (offset = 0) by lia. subst offset.
+    + inversion H; subst. apply Z.leb_le in E0.
       split; [apply mono_refl|]. split; [reflexivity|]. split; [reflexivity|]. split; [reflexivity|].
-      intros _ _. cbn. split; [reflexivity|]. split; [lia|auto].
+      intros Hn _ _. assert (offset = 0) by lia. subst offset. cbn. split; [reflexivity|]. split; [lia|auto].
     + apply Z.leb_gt in E0.
       set (step := if IO_FSEEK_STEPMAX <? offset then IO_FSEEK_STEPMAX else offset) in *.
       assert (ST : 0 < step <= offset).
       { unfold step. destruct (IO_FSEEK_STEPMAX <? offset) eqn:E1; [apply Z.ltb_lt in E1; unfold IO_FSEEK_STEPMAX in *; lia|lia]. }
       clearbody step.
       destruct (seekable && negb (f_seek fl (s_nseek s))).
-      * apply IHfuel in H; [|lia]. destruct H as [M [Ka [Kb [Kc F]]]].
+      * apply IHfuel in H. destruct H as [M [Ka [Kb [Kc F]]]].
         split; [destruct M as [M1 M2]; split; [exact M1|]; intros P; apply M2; cbn; rewrite P; reflexivity|].
         split; [exact Ka|]. split; [exact Kb|]. split; [exact Kc|].
-        intros E G. destruct (F E G) as [Fa [Fb Fc]].
+        intros Hn E G. destruct (F ltac:(lia) E G) as [Fa [Fb Fc]].
         assert (GP : s_pasteof (seek_fwd step s) = false).
         { destruct M as [_ M2]. destruct G as [_ G2]. destruct (s_pasteof (seek_fwd step s)); [rewrite M2 in G2 by reflexivity; discriminate|reflexivity]. }
         cbn in GP. apply orb_false_iff in GP. destruct GP as [_ GP]. apply Z.ltb_ge in GP. unfold len in GP.
         cbn [seek_fwd s_in] in Fa, Fb. rewrite skipn_length in Fb. rewrite skipn_skipn' in Fa.
         split; [rewrite Fa; f_equal; lia|]. split; [lia|].
         intros C. apply Fc. cbn. apply clean_cons; [reflexivity|exact C].
-      * apply skip_stream_ok in H; [|exact Hn]. destruct H as [M [[Ka [Kb [Kc Kd]]] F]].
+      * apply skip_stream_ok in H. destruct H as [M [[Ka [Kb [Kc Kd]]] F]].
         split; [exact M|]. split; [exact Ka|]. split; [exact Kb|]. split; [exact Kc|].
-        intros E [G1 G2]. destruct (F E G1) as [Fa [Fb Fc]].
+        intros Hn E [G1 G2]. destruct (F Hn E G1) as [Fa [Fb Fc]].
         split; [exact Fa|]. split; [exact Fb|]. intros C. apply Fc. cbn. apply clean_cons; [reflexivity|exact C].
 Qed.
 
@@ -459,20 +460,58 @@ Section Sound.
     unfold is_magic. rewrite H. apply orb_true_r.
   Qed.
 
-  Lemma dispatch_ok : forall mt test seekable fl hdr mn s sd d,
-    dispatch fdec bdec mt test false seekable fl (le_val hdr) mn s = Ret d sd ->
-    length hdr = 4%nat -> s_magic s = 0 -> bytes_ok (hdr ++ s_in s) = true ->
-    mono s sd /\ d <> DEnd /\ (d = DFrame -> good sd -> frame_post test s sd (hdr ++ s_in s)).
+  Lemma mt_frames_mono : forall fuel fl data s s', mt_frames fdec fuel fl data s = Ret tt s' -> mono s s'.
   Proof.
-    intros mt test seekable fl hdr mn s sd d H L4 Z0 BO. unfold dispatch in H.
+    induction fuel; intros fl data s s' H; cbn [mt_frames] in H; [discriminate|].
+    destruct data as [|d0 dr] eqn:ED; [inversion H; apply mono_refl|]. rewrite <- ED in *. clear ED.
+    destruct (len data <? minFHSize); [discriminate|].
+    destruct (Z.land _ _ =? _).
+    - destruct (len data <? 8); [discriminate|]. destruct (len data - 8 <? _); [discriminate|]. eapply IHfuel; exact H.
+    - destruct (_ =? LZ4IO_MAGICNUMBER); [|discriminate].
+      destruct (fdec data) as [[c rest]|]; [|discriminate].
+      destruct (fwrite fl c s) as [ok s1] eqn:W. destruct ok; [|discriminate].
+      eapply mono_trans; [eapply fwrite_mono; exact W|eapply IHfuel; exact H].
+  Qed.
+
+  Lemma dispatch_mono : forall mt test seekable fl magic mn s sd d,
+    dispatch fdec bdec mt test false seekable fl magic mn s = Ret d sd -> mono s sd /\ d <> DEnd.
+  Proof.
+    intros mt test seekable fl magic mn s sd d H. unfold dispatch in H.
+    set (m' := if is_skippable magic then LZ4IO_SKIPPABLE0 else magic) in *. clearbody m'.
+    destruct (m' =? LZ4IO_MAGICNUMBER).
+    { destruct mt.
+      - destruct (lz4f_mt fdec fl s) as [[] s1|] eqn:E; cbn [lift] in H; [|discriminate].
+        inversion H; subst d sd; clear H. split; [|discriminate]. unfold lz4f_mt in E.
+        destruct (fread fl (len (s_in s) + 1) s) as [g s3] eqn:R3. destruct (fread_ok _ _ _ _ _ R3) as [Ma _].
+        destruct (s_rerr s3); [discriminate|]. eapply mono_trans; [exact Ma|eapply mt_frames_mono; exact E].
+      - destruct (lz4f_st fdec test fl s) as [[] s1|] eqn:E; cbn [lift] in H; [|discriminate].
+        inversion H; subst d sd; clear H. split; [|discriminate]. destruct (lz4f_st_ok _ _ _ _ E) as [Ma _]. exact Ma. }
+    destruct (m' =? LEGACY_MAGICNUMBER).
+    { destruct (legacy bdec mt fl s) as [[] s1|] eqn:E; cbn [lift] in H; [|discriminate].
+      inversion H; subst d sd; clear H. split; [|discriminate]. destruct (legacy_ok _ _ _ _ E) as [Ma _]. exact Ma. }
+    destruct (m' =? LZ4IO_SKIPPABLE0).
+    { destruct (fread fl 4 s) as [szb s2] eqn:R2. destruct (fread_ok _ _ _ _ _ R2) as [Ma _].
+      destruct (negb (len szb =? 4)); [discriminate|].
+      destruct (fseek_u32 6 seekable fl (le_val szb) s2) as [e s3] eqn:FS.
+      destruct (e =? 0); [|discriminate]. inversion H; subst d sd; clear H. split; [|discriminate].
+      destruct (fseek_u32_ok _ _ _ _ _ _ _ FS) as [Mb _]. eapply mono_trans; [exact Ma|exact Mb]. }
+    destruct (s_nbFrames s =? 1); [cbn [andb] in H; discriminate|].
+    inversion H; subst d sd; clear H. split; [apply mono_refl|discriminate].
+  Qed.
+
+  Lemma dispatch_ok : forall mt test seekable fl hdr mn s sd,
+    dispatch fdec bdec mt test false seekable fl (le_val hdr) mn s = Ret DFrame sd ->
+    length hdr = 4%nat -> s_magic s = 0 -> bytes_ok (hdr ++ s_in s) = true ->
+    good sd -> frame_post test s sd (hdr ++ s_in s).
+  Proof.
+    intros mt test seekable fl hdr mn s sd H L4 Z0 BO G. unfold dispatch in H.
     assert (BH : bytes_ok hdr = true) by (rewrite bytes_ok_app in BO; apply andb_true_iff in BO; tauto).
     assert (BI : bytes_ok (s_in s) = true) by (rewrite bytes_ok_app in BO; apply andb_true_iff in BO; tauto).
     assert (RM := le_val_4_range _ BH L4).
     assert (HB : le_bytes 4 (le_val hdr) = hdr) by (rewrite <- L4; apply le_bytes_le_val; exact BH).
     assert (LBS : (4 <= length (hdr ++ s_in s))%nat) by (rewrite app_length; lia).
     assert (FH : firstn 4 (hdr ++ s_in s) = hdr) by (apply firstn_app_exact; exact L4).
-    assert (SH : skipn 4 (hdr ++ s_in s) = s_in s).
-    { apply skipn_app_exact; exact L4. }
+    assert (SH : skipn 4 (hdr ++ s_in s) = s_in s) by (apply skipn_app_exact; exact L4).
     set (m := le_val hdr) in *.
     destruct (is_skippable m) eqn:SK.
     - (* skippable frame *)
@@ -484,28 +523,17 @@ Section Sound.
       destruct (len szb =? 4) eqn:E4; cbn [negb] in H; [|discriminate].
       destruct (fseek_u32 6 seekable fl (le_val szb) s1) as [e s2] eqn:FS.
       destruct (e =? 0) eqn:EE; [|discriminate]. apply Z.eqb_eq in EE. subst e.
-      inversion H; subst d sd; clear H.
-      split.
-      { (* mono, without knowing the range of the size yet *)
-        destruct (Z_le_gt_dec 0 (le_val szb)) as [NN|NEG].
-        - destruct (fseek_u32_ok _ _ _ _ _ _ _ FS NN) as [M2 _]. eapply mono_trans; [exact M1|exact M2].
-        - cbn [fseek_u32] in FS. replace (le_val szb <=? 0) with true in FS by (symmetry; apply Z.leb_le; lia).
-          assert (ES2 : s2 = s1) by (inversion FS; reflexivity). rewrite ES2. exact M1. }
-      split; [discriminate|]. intros _ G.
-      assert (R1E : s_rerr s1 = false).
-      { destruct (Z_le_gt_dec 0 (le_val szb)) as [NN|NEG].
-        - destruct (fseek_u32_ok _ _ _ _ _ _ _ FS NN) as [M2 _]. destruct (good_back _ _ M2 G) as [GG _]. exact GG.
-        - cbn [fseek_u32] in FS. replace (le_val szb <=? 0) with true in FS by (symmetry; apply Z.leb_le; lia).
-          assert (ES2 : s2 = s1) by (inversion FS; reflexivity). rewrite ES2 in G. destruct G as [GG _]. exact GG. }
+      assert (ES : s2 = sd) by (inversion H; reflexivity). subst s2. clear H.
+      destruct (fseek_u32_ok _ _ _ _ _ _ _ FS) as [M2 [K2a [K2b [K2c F2]]]].
+      destruct (good_back _ _ M2 G) as [R1E _].
       destruct (F1 R1E) as [Fa [Fb Fc]]. change (Z.to_nat 4) with 4%nat in *.
       apply Z.eqb_eq in E4. assert (LI : (4 <= length (s_in s))%nat).
-      { subst szb. unfold len in E4. rewrite firstn_length in E4. lia. }
-      assert (BZ : bytes_ok szb = true) by (subst szb; apply bytes_ok_firstn; exact BI).
+      { rewrite Fa in E4. unfold len in E4. rewrite firstn_length in E4. lia. }
+      assert (BZ : bytes_ok szb = true) by (rewrite Fa; apply bytes_ok_firstn; exact BI).
       assert (RZ : 0 <= le_val szb < 4294967296) by (apply le_val_4_range; [exact BZ|unfold len in E4; lia]).
-      destruct (fseek_u32_ok _ _ _ _ _ _ _ FS (proj1 RZ)) as [M2 [K2a [K2b [K2c F2]]]].
-      destruct (F2 eq_refl G) as [Fd [Fe Ff]].
+      destruct (F2 (proj1 RZ) eq_refl G) as [Fd [Fe Ff]].
       split; [intros C; apply Ff, Fc, C|].
-      exists [], (s_in s2). split; [left; split; [rewrite K2b, K1b; exact Z0|reflexivity]|].
+      exists [], (s_in sd). split; [left; split; [rewrite K2b, K1b; exact Z0|reflexivity]|].
       split; [rewrite Fd, skipn_length, Fb, skipn_length, app_length; lia|].
       split; [intros _; rewrite app_nil_r, K2a; exact K1a|].
       intros _ acc F LF. rewrite stream_step_nonempty by exact LBS. cbv zeta. rewrite FH, SH. fold m.
@@ -524,18 +552,16 @@ Section Sound.
         assert (HM : hdr = le_bytes 4 LZ4IO_MAGICNUMBER) by (rewrite <- EM; symmetry; exact HB).
         destruct mt.
         * destruct (lz4f_mt fdec fl s) as [[] s1|] eqn:E; cbn [lift] in H; [|discriminate].
-          inversion H; subst d sd; clear H.
+          assert (ES : s1 = sd) by (inversion H; reflexivity). subst s1. clear H.
           destruct (lz4f_mt_ok _ _ _ E BI) as [M [Ka [Kb [Kc [Kr [C [c [O SP]]]]]]]].
-          split; [exact M|]. split; [discriminate|]. intros _ G.
           split; [exact C|]. exists c, []. split; [left; split; [rewrite Kb; exact Z0|symmetry; exact Ka]|].
-          split; [cbn; lia|]. split; [intros _; exact O|].
+          split; [rewrite app_length; cbn [length]; lia|]. split; [intros _; exact O|].
           intros _ acc F LF. rewrite HM. rewrite SP by (rewrite HM in LF; rewrite app_length in LF; cbn in LF; cbn; lia).
           destruct F; [lia|]. cbn. reflexivity.
         * destruct (lz4f_st fdec test fl s) as [[] s1|] eqn:E; cbn [lift] in H; [|discriminate].
-          inversion H; subst d sd; clear H.
+          assert (ES : s1 = sd) by (inversion H; reflexivity). subst s1. clear H.
           destruct (lz4f_st_ok _ _ _ _ E) as [M [Kc [Kb [C [c [FD O]]]]]].
-          split; [exact M|]. split; [discriminate|]. intros _ G.
-          split; [exact C|]. exists c, (s_in s1). split; [left; split; [rewrite Kb; exact Z0|reflexivity]|].
+          split; [exact C|]. exists c, (s_in sd). split; [left; split; [rewrite Kb; exact Z0|reflexivity]|].
           rewrite <- HM in FD.
           destruct (frame_decode_suffix _ _ _ _ _ _ FD) as [pre [EP [LP _]]].
           split; [rewrite EP, app_length; lia|]. split; [exact O|].
@@ -544,9 +570,8 @@ Section Sound.
       + destruct (m =? LEGACY_MAGICNUMBER) eqn:EL.
         * (* legacy frame *)
           destruct (legacy bdec mt fl s) as [[] s1|] eqn:E; cbn [lift] in H; [|discriminate].
-          inversion H; subst d sd; clear H.
+          assert (ES : s1 = sd) by (inversion H; reflexivity). subst s1. clear H.
           destruct (legacy_ok _ _ _ _ E) as [M [Kc [Kr SS]]].
-          split; [exact M|]. split; [discriminate|]. intros _ G.
           destruct (SS G Z0) as [C [c [O P]]].
           split; [exact C|].
           assert (STEP : forall rest acc F, (length (hdr ++ s_in s) <= F)%nat ->
@@ -559,14 +584,63 @@ Section Sound.
           -- exists c, []. split; [left; split; [exact Pa|symmetry; exact Pb]|].
              split; [rewrite app_length; cbn [length]; lia|]. split; [intros _; exact O|].
              intros _ acc F LF. apply STEP; [exact LF|]. apply Pc. lia.
-          -- exists c, (h ++ s_in s1).
+          -- exists c, (h ++ s_in sd).
              split; [right; exists h; split; [exact Pa|]; split; [exact Pb|]; split; [unfold LZ4IO_LEGACY_BOUND in Pc; lia|reflexivity]|].
              split; [rewrite !app_length; lia|]. split; [intros _; exact O|].
              intros HO acc F LF. apply STEP; [exact LF|]. apply Pe; [lia|]. apply HO. unfold LZ4IO_LEGACY_BOUND in Pc. lia.
         * (* unknown magic number *)
           destruct (m =? LZ4IO_SKIPPABLE0) eqn:E0.
           { exfalso. apply Z.eqb_eq in E0. unfold is_skippable in SK. rewrite E0 in SK. discriminate. }
-          destruct (s_nbFrames s =? 1); [cbn [andb] in H; discriminate|].
-          inversion H; subst d sd; clear H. split; [apply mono_refl|]. split; [discriminate|]. intros D; discriminate.
+          destruct (s_nbFrames s =? 1); [cbn [andb] in H; discriminate|]. discriminate.
+  Qed.
+
+  Lemma select_ok : forall mt test seekable fl s sd d bs,
+    select_decoder fdec bdec mt test false seekable fl s = Ret d sd -> pending s bs -> bytes_ok bs = true ->
+    mono s sd /\
+    (d = DEnd -> s_rerr sd = false /\ (s_rerr sd = false -> bs = [] /\ s_out sd = s_out s /\ (clean (s_tr s) -> clean (s_tr sd)))) /\
+    (d = DFrame -> good sd -> frame_post test s sd bs).
+  Proof.
+    intros mt test seekable fl s sd d bs H P BO. unfold select_decoder in H.
+    set (s0 := set_nb (s_nbFrames s + 1) s) in *.
+    destruct P as [[Z0 EB]|[hdr [L4 [EV [NZ EB]]]]].
+    - (* the magic number is read from the input *)
+      replace (s_magic s0 =? 0) with true in H by (symmetry; apply Z.eqb_eq; exact Z0). cbn [negb] in H.
+      destruct (fread fl MAGICNUMBER_SIZE s0) as [mn s1] eqn:R1.
+      destruct (fread_ok _ _ _ _ _ R1) as [M1 [[K1a [K1b [K1c K1d]]] F1]].
+      change (Z.to_nat MAGICNUMBER_SIZE) with 4%nat in F1. cbn [s0 set_nb s_in s_out s_magic s_tr s_rerr s_pasteof] in *.
+      assert (M01 : mono s s1) by (destruct M1 as [A B]; split; [exact A|exact B]).
+      destruct (len mn =? 0) eqn:E0.
+      + destruct (s_rerr s1) eqn:RE; [discriminate|]. inversion H; subst d sd; clear H.
+        split; [destruct M01; split; auto|]. split; [|intros D; discriminate]. intros _.
+        cbn. split; [exact RE|]. intros _.
+        destruct (F1 eq_refl) as [Fa [Fb Fc]].
+        apply Z.eqb_eq in E0. unfold len in E0. assert (HN : mn = []) by (destruct mn; [reflexivity|cbn in E0; lia]).
+        rewrite HN in Fa. symmetry in Fa. apply firstn_nil_inv in Fa; [|lia].
+        split; [rewrite EB; exact Fa|]. split; [exact K1a|exact Fc].
+      + destruct (len mn =? MAGICNUMBER_SIZE) eqn:E4; cbn [negb] in H; [|discriminate].
+        apply Z.eqb_eq in E4. change MAGICNUMBER_SIZE with 4 in E4.
+        destruct (dispatch_mono _ _ _ _ _ _ _ _ _ H) as [M2 ND].
+        split; [eapply mono_trans; [exact M01|exact M2]|].
+        split; [intros D; subst d; exfalso; apply ND; reflexivity|].
+        intros D G. subst d. destruct (good_back _ _ M2 G) as [RE _].
+        destruct (F1 RE) as [Fa [Fb Fc]].
+        assert (EQ : bs = mn ++ s_in s1).
+        { rewrite EB, Fa, Fb. symmetry. apply firstn_skipn. }
+        rewrite EQ in BO.
+        destruct (dispatch_ok _ _ _ _ mn mn s1 sd H ltac:(unfold len in E4; lia) ltac:(rewrite K1b; exact Z0) BO G)
+          as [C [c [bs' [P' [LL [O SP]]]]]].
+        split; [intros CC; apply C, Fc, CC|]. exists c, bs'. rewrite EQ.
+        split; [exact P'|]. split; [exact LL|]. split; [intros T; rewrite (O T), K1a; reflexivity|exact SP].
+    - (* the magic number was handed over by the legacy decoder *)
+      replace (s_magic s0 =? 0) with false in H by (symmetry; apply Z.eqb_neq; exact NZ). cbn [negb] in H.
+      cbn [s0 set_nb s_magic] in H. rewrite <- EV in H. rewrite EB in BO.
+      destruct (dispatch_mono _ _ _ _ _ _ _ _ _ H) as [M2 ND].
+      split; [destruct M2 as [A B]; split; [exact A|exact B]|].
+      split; [intros D; subst d; exfalso; apply ND; reflexivity|].
+      intros D G. subst d.
+      match type of H with dispatch _ _ _ _ _ _ _ _ _ ?sx = _ =>
+        destruct (dispatch_ok _ _ _ _ hdr [] sx sd H L4 eq_refl BO G) as [C [c [bs' [P' [LL [O SP]]]]]] end.
+      cbn [set_magic set_nb s_in s_out s_tr s_rerr s_pasteof] in *.
+      split; [exact C|]. exists c, bs'. rewrite EB. split; [exact P'|]. split; [exact LL|]. split; [exact O|exact SP].
   Qed.
 End Sound.
